@@ -1,4 +1,6 @@
 //! Common machinery for the lopdf property checks (see /verif/DESIGN.md §2).
+pub mod absdoc;
+pub mod choose;
 pub mod cmp;
 pub mod docgen;
 pub mod gen;
@@ -7,6 +9,7 @@ pub mod refcmap;
 pub mod refcodec;
 pub mod refcrypt;
 pub mod refdate;
+pub mod refpdf;
 pub mod rt;
 pub mod run;
 pub mod sink;
